@@ -955,7 +955,14 @@ def check_dpd_generator(ctx: Check, tree: Tree) -> None:
     # relabelling -1..3 -> 0..4
     rel = tree.func(f"{mod}::__get_default_relabel_mapping")
     rets = [r for r in walk_function(rel.node) if isinstance(r, ast.Return) and r.value is not None]
-    ok = len(rets) == 1 and unparse(rets[0].value).replace(" ", "") in {"{i-1:iforiinrange(5)}", "{i:i+1foriinrange(-1,4)}"}
+    ok = False
+    if len(rets) == 1 and isinstance(rets[0].value, ast.DictComp) and len(rets[0].value.generators) == 1 and isinstance(rets[0].value.generators[0].target, ast.Name):
+        dc = rets[0].value
+        v = dc.generators[0].target.id
+        import re as _re
+
+        txt = _re.sub(rf"\b{_re.escape(v)}\b", "_", unparse(dc)).replace(" ", "")
+        ok = txt in {"{_-1:_for_inrange(5)}", "{_:_+1for_inrange(-1,4)}"}
     if not ok and len(rets) == 1 and isinstance(rets[0].value, ast.Dict):
         try:
             lit = {ast.literal_eval(k): ast.literal_eval(v) for k, v in zip(rets[0].value.keys, rets[0].value.values)}
